@@ -244,8 +244,14 @@ def check_model(ctx, m, record=True, apk_bytes=None):
             ctx.check(ma is None, 'main:one:none-declared', case,
                       'get_main_activity() = %r, the manifest declares no launcher activity' % (ma,))
         else:
-            ctx.check(ma in want_main, 'main:one:%s' % ('single' if len(want_main) == 1 else 'several'), case,
-                      'get_main_activity() = %r, launcher activities declared: %r' % (ma, sorted(want_main)))
+            ok = ctx.check(ma in want_main, 'main:one:%s' % ('single' if len(want_main) == 1 else 'several'), case,
+                           'get_main_activity() = %r, launcher activities declared: %r' % (ma, sorted(want_main)))
+            declared = set(exp.get('main_declared_activities', ()))
+            if ok and declared:
+                # "main activity": when a real <activity> is a launcher entry, an <activity-alias> is not the main activity
+                ctx.check(ma in declared, 'main:one:alias-preferred-over-activity', case,
+                          'get_main_activity() = %r is an activity-alias although launcher <activity> elements exist: %r'
+                          % (ma, sorted(declared)))
 
 
 def _fn(ctx, m):
